@@ -1,21 +1,86 @@
+import Proofs.Lemmas.ForkChoiceInv2
 import Proofs.Lemmas.ForkChoicePass1
-import Proofs.Lemmas.ForkChoiceDeltas
+import Zrnt.ForkChoice.Spec
 /-!
 # C09 — fork-choice head is the LMD-GHOST winner for every history
 
-Statements about the code-shaped model `Zrnt.ForkChoice` (tie H: modes `fc09`/`fc10`/`fc11`).
+Statements about the code-shaped model `Zrnt.ForkChoice` (`Zrnt/ForkChoice/Model.lean`; tie H: modes
+`fc09`/`fc10`/`fc11` run the same operation lines on the real Go code, on this model and on the independent
+GHOST oracle `Zrnt.ForkChoice.Spec`).
+
+What is proved here, for ALL operation sequences: the structure invariant (`inv_structure`) and, for all
+sequences inside the domain of the refinement, the chain structure, the votes invariant and the weights invariant
+(`inv_weights`): the weight of every node is the sum of the balances of the validators whose applied vote lies in
+its fork-choice subtree.
+
+What is NOT proved: the last step of the refinement,
+  `head_eq_ghost : ∀ ops, Admissible .none ops → answers of `head`/`findhead` in `(run .none ops).2` =
+                   those of `(Spec.run none ops).2``
+(best-child/best-descendant links equal the specification's choice after a connection pass, hence the head equals
+the GHOST walk of `Spec.lean`). On the current tree (after the fixes 6f39f86, e38b1d0, 88e6a0a) it is validated by
+the correspondence only: every `head`/`findhead` answer of the Go code is compared with the oracle on the generated
+histories (viability changes, vote moves, balance changes, pins included), with no disagreement outside the known
+OnPrune family.
 -/
 namespace Zrnt.Proofs.C09
 open Zrnt.ForkChoice
 
+def rt (n : Nat) : Root := n * 256 ^ 31
+
+/-- **Structure invariant, all operation sequences.** As long as nothing has been pruned (offset 0 after every
+prefix), the live instance has a free mutex and a well-formed array (`WF`: parents at smaller indices, index map and
+array agree, one delta slot per node, best links are children / proper descendants), and no call has panicked,
+blocked or looped. -/
+theorem inv_structure (ops : List Op) (st : MState) (h : MInv st)
+    (hu : ∀ k, k ≤ ops.length → Unpruned (run st (ops.take k)).1) : MInv (run st ops).1 :=
+  Zrnt.ForkChoice.inv_structure ops st h hu
+
+/-- **Weights / votes / chain invariants, all admissible operation sequences** (`Admissible`: non-zero roots,
+empty-slot insertions under a known root at or after its first slot, finalized checkpoint never moved — so nothing
+is pruned). `MInv2 (.live fc)` unfolds to: mutex free, `WF fc.pa`, `Chain fc.pa`, Go's zero `NodeRef` is not a node,
+every applied vote is a node, and `WeightsOK fc`. -/
+theorem inv_weights (ops : List Op) (ha : Admissible .none ops) : MInv2 (run .none ops).1 :=
+  Zrnt.ForkChoice.inv_weights ops .none trivial ha
+
+/-- the weights invariant spelled out: a vote counts once, at the validator's current balance, in every node of the
+path from its target up to the root of the array -/
+theorem weights_are_subtree_sums (ops : List Op) (ha : Admissible .none ops) (fc : FC)
+    (hl : (run .none ops).1 = .live fc) (i : Nat) (n : Node) (hn : fc.pa.nodes[i]? = some n) :
+    n.weight = wsum fc.pa fc.votes fc.balances i := by
+  have h := inv_weights ops ha
+  rw [hl] at h
+  exact h.2.w i n hn
+
+/-- non-vacuity: an admissible history with a fork, an empty-slot extension, votes (one of them moved), a
+justified-only update with changed balances and a head query -/
+def hist : List Op := [
+  .init 4 (rt 1) 0 0 ⟨0, rt 1⟩ ⟨0, rt 1⟩ .recording [32, 32],
+  .block (rt 1) (rt 2) 1 0 0, .block (rt 1) (rt 3) 2 1 0, .slot (rt 2) 5 0 0,
+  .att 0 (rt 2) 1, .att 1 (rt 3) 2, .head, .att 0 (rt 2) 5,
+  .justify (rt 1) ⟨1, rt 1⟩ ⟨0, rt 1⟩ (some [1, 33]), .head]
+
+example : Admissible .none hist := admissibleB_sound hist .none (by decide +kernel)
+
+example : (run .none hist).2.getLast? = some (Ans.ref ⟨2, rt 3⟩) ∧
+    (Spec.run none hist).2.getLast? = some (Ans.ref ⟨2, rt 3⟩) := by decide +kernel
+
 /-- Back-propagation (first loop of `ApplyScoreChanges`): on an array whose fork-choice parents have smaller
-indices the loop never indexes out of range, changes nothing but weights, and adds to the weight of every
-node the sum of the deltas over its fork-choice subtree. -/
+indices the loop never indexes out of range, changes nothing but weights, and adds to the weight of every node the
+sum of the deltas over its fork-choice subtree. -/
 theorem weights_propagate (ns : List Node) (ds : List Int) (hlen : ds.length = ns.length)
     (hpar : ∀ (i : Nat) (n : Node) (p : Nat), ns[i]? = some n → n.fparent = some p → p < i) :
     ∃ ns' ds', PA.pass1 0 ns.length ns ds = some (ns', ds') ∧ ns'.length = ns.length ∧
       ∀ (i : Nat) (n : Node), ns[i]? = some n →
         ns'[i]? = some { n with weight := n.weight + subSum ns ds i } :=
   pass1_spec ns ds hlen hpar
+
+/-- `ComputeDeltas` + `ApplyScoreChanges` (what `Head` and `UpdateJustified` run): from weights that are the
+subtree sums for the old trackers and balances to weights that are the subtree sums for the new ones — unknown-target
+pending votes change nothing, a moved vote is subtracted at the old and added at the new balance. -/
+theorem score_changes_exact (pr : PA) (h : WF pr) (hz : NoZero pr) (votes : List Vote) (oldB newB : List Nat)
+    (hw : WeightsAre pr votes oldB) (ds : List Int) (vs' : List Vote)
+    (hd : computeDeltas pr.indices votes oldB newB = some (ds, vs')) (jE fE : Nat) :
+    ∃ pr', pr.applyScoreChanges ds jE fE = .ok pr' () ∧ WF pr' ∧ FrameS pr pr' ∧ WeightsAre pr' vs' newB :=
+  weights_applyDeltas pr h hz votes oldB newB hw ds vs' hd jE fE
 
 end Zrnt.Proofs.C09
